@@ -57,13 +57,13 @@ theorem syncDay_ntombs_mem {d : Defects} (rights : Rights)
     intro y hy
     split at hy
     · exact Or.inl (t1 ▸ hy)
-    · unfold applyNTombs at hy
-      rcases foldTombs_mem _ _ y hy with e | e
-      · exact Or.inl (t1 ▸ e)
-      · have e' := (List.mem_filter.mp e).1
-        split at e'
-        · exact Or.inr (hsrc y (mem_dedupById e'))
-        · exact Or.inr (hsrc y e')
+    · revert y
+      refine applyNTombs_induct d rights nts (fun r : Replica => ∀ y ∈ r.ntombs, y ∈ dst.ntombs ∨ y ∈ src.ntombs) dst1
+        (fun y hy => Or.inl (t1 ▸ hy)) ?_
+      intro r t ht hr y hy
+      rcases mem_putNTomb (show y ∈ putNTomb t r.ntombs from hy) with e | e
+      · exact Or.inr (e ▸ hsrc t ht)
+      · exact hr y e
   generalize (if nts.isEmpty then dst1 else applyNTombs d rights dst1 nts) = dst2 at h t2
   split at h
   · exact t2 x h
